@@ -162,7 +162,8 @@ def run_engine(ctx):
     ov = ctx.overlay(overlay_map())
     rc, out = ctx.go_test(".", ov, "^TestVerifIRC$", timeout=3000, env={
         "VERIF_IRC_OUT": trace, "VERIF_IRC_IN": prog_file, "VERIF_IRC_GEN": gen, "VERIF_IRC_LEN": glen,
-        "VERIF_IRC_K": k, "VERIF_IRC_SNAP": 1, "VERIF_IRC_FANOUT": FANOUT[ctx.tier]})
+        "VERIF_IRC_K": k, "VERIF_IRC_SNAP": 1, "VERIF_IRC_FANOUT": FANOUT[ctx.tier],
+        "VERIF_IRC_DET": 40 if ctx.quick else 400})
     if rc != 0 or not os.path.exists(trace):
         raise vlib.Inconclusive("IRC harness failed (rc=%s):\n%s" % (rc, out[-4000:]))
     if not finished(trace):
@@ -337,6 +338,8 @@ func Now() Time {
                         chunk_paths.append(os.path.join(ctx.scratch, "chunk-%d.ndjson" % len(chunk_paths)))
                         cur, curlen = open(chunk_paths[-1], "w"), 0
                     chunk_of_h[x["h"]] = len(chunk_paths) - 1
+                elif kx == "det":
+                    res["det_steps"] = res.get("det_steps", 0) + 1
                 elif kx in ("step", "snap"):
                     res["steps"] += 1
                     nsteps_seen += 1
@@ -413,7 +416,7 @@ func Now() Time {
 
     def history_upto(h, i):
         pre = history_upto(bases[h], 10 ** 9) if h in bases else []
-        return pre + [y["e"] for y in got.get(h, []) if y["k"] == "step" and y["i"] <= i]
+        return pre + [y["e"] for y in got.get(h, []) if y["k"] in ("step", "det") and y["i"] <= i]
 
     def rec_of(h, i, kind):
         for y in got.get(h, []):
@@ -430,7 +433,7 @@ func Now() Time {
                                 "panics": "ages (id, rid, age-expiration s) %s proposed %s" % (x["ages"], x["expire"]),
                                 "program": history_upto(h, n)})
             continue
-        x = (rec_of(h, i, "snap") if name.startswith("RoundTrip") else None) or rec_of(h, i, "step")
+        x = (rec_of(h, i, "snap") if name.startswith("RoundTrip") else None) or rec_of(h, i, "step") or rec_of(h, i, "det")
         if x is None:
             raise vlib.Inconclusive("cannot find record %s/%s of a reported failure" % (h, i))
         res["fail"].append({"prop": pid, "pred": name, "h": h, "i": i, "data": x["e"].get("data", ""),
